@@ -21,8 +21,11 @@ done
 for d in seeded/*/; do
   m=$(basename "$d")
   ( cd "$REPO" && git apply "$V/$d/patch.diff" ) || { printf '%s\tALL\tpatch-does-not-apply\t\n' "$m" >> matrix.tsv; continue; }
+  target=$(sed -n 's/.*"breaks_property": "\(C[0-9]*\)".*/\1/p' "$d/meta.json")
   for c in $PROPS; do
-    out=$(./check $c quick 2>&1); code=$?
+    # sanitizer lanes only for the property the change was written against (they dominate the run time)
+    if [ "$c" = "$target" ]; then lanes=1; else lanes=0; fi
+    out=$(VERIF_LANES=$lanes ./check $c quick 2>&1); code=$?
     printf '%s\t%s\t%s\t%s\n' "$m" "$c" "$code" "$(echo "$out" | grep -E '^(  signature|INCONCLUSIVE)' | sed 's/  signature: //' | cut -c1-160 | head -6 | tr '\n' ';')" >> matrix.tsv
   done
   git -C "$REPO" checkout -- .
